@@ -552,79 +552,90 @@ def ow4(ctx, R):
             "shared (de-duplicated) offset arrays are never written through",
             "an offset array shared between channels is modified in place in %s" % (muts[0][0].qual if muts else ""))
     # one-chunk cache
+    from .region import region
+    from .sem import leaves, flat_conds, match, W, find, norm_items
+    from .sym import Sym, show
     fi = prog.func("tdms.TdmsChannel._read_at_index")
-    cfg = ctx.cfg(fi)
+    ch = fi.cls
+    reg = {f.qual for f in region(ctx, fi, depth=2)}
 
     def stores_attr(n, name):
         return n.kind == "stmt" and isinstance(n.ast, ast.Assign) and any(
             isinstance(t, ast.Attribute) and dotted(t.value) == "self" and t.attr == name for t in n.ast.targets)
-    for a, b in (("_cached_chunk", "_cached_chunk_bounds"), ("_cached_chunk_bounds", "_cached_chunk")):
-        for n in cfg.where(lambda n: stores_attr(n, a)):
-            # from this store, every normal path to exit passes a store of the sibling, or the sibling store dominates
-            ok1, _ = cfg.always_passes(n, lambda m: stores_attr(m, b), targets={cfg.exit}, follow_exc=False)
-            ok2, _ = cfg.dominated_by(n, lambda m: stores_attr(m, b))
-            R.check(ok1 or ok2, "tdms.TdmsChannel._read_at_index::%s with %s" % (a, b), fi.where(n.ast),
-                    "the cached chunk and its bounds are assigned together", "self.%s is assigned without self.%s on some path: "
-                    "the bounds would then describe another chunk" % (a, b))
-    others = [(f2, n) for f2 in prog.functions.values() if f2 is not fi and f2.name != "__init__"
-              for n in walk_body(f2.node) if isinstance(n, ast.Assign) and any(
-                  isinstance(t, ast.Attribute) and t.attr in ("_cached_chunk", "_cached_chunk_bounds") for t in n.targets)]
-    R.check(not others, "tdms.TdmsChannel::cache single writer", fi.where(), "cache written only in _read_at_index (and reset in __init__)",
-            "cache also written in %s" % (others[0][0].qual if others else ""))
-    _cache_hit_test(ctx, R, fi, cfg)
+    writers = [m for m in ch.methods.values() if m.name != "__init__" and any(
+        isinstance(n, ast.Assign) and any(isinstance(t, ast.Attribute) and t.attr in ("_cached_chunk", "_cached_chunk_bounds") for t in n.targets)
+        for n in walk_body(m.node))]
+    if not writers:
+        raise AnchorMissing("tdms.TdmsChannel: stores of the one-chunk cache")
+    for w in writers:
+        cfg = ctx.cfg(w)
+        for a, b in (("_cached_chunk", "_cached_chunk_bounds"), ("_cached_chunk_bounds", "_cached_chunk")):
+            for n in cfg.where(lambda n: stores_attr(n, a)):
+                ok1, _ = cfg.always_passes(n, lambda m: stores_attr(m, b), targets={cfg.exit}, follow_exc=False)
+                ok2, _ = cfg.dominated_by(n, lambda m: stores_attr(m, b))
+                R.check(ok1 or ok2, "tdms.TdmsChannel::%s with %s" % (a, b), w.where(n.ast),
+                        "the cached chunk and its bounds are assigned together", "self.%s is assigned without self.%s on some path: "
+                        "the bounds would then describe another chunk" % (a, b))
+    cg = ctx.callgraph()
+    others = [w.qual for w in writers if w.qual not in reg] + [f2.qual for f2 in prog.functions.values() if f2.cls is not ch and f2.name != "__init__" and any(
+        isinstance(n, ast.Assign) and any(isinstance(t, ast.Attribute) and t.attr in ("_cached_chunk", "_cached_chunk_bounds") for t in n.targets)
+        for n in walk_body(f2.node))]
+    for w in writers:
+        if w is not fi:
+            callers = {e.caller for e in cg.callers(w.qual)}
+            if not callers <= reg:
+                others.append("%s (called from %s)" % (w.qual, sorted(callers - reg)))
+    R.check(not others, "tdms.TdmsChannel::cache single writer", fi.where(), "cache written only by integer indexing (and reset in __init__)",
+            "cache also written in %s" % (others[0] if others else ""))
+    _cache_hit_test(ctx, R, fi)
 
 
-def _cache_hit_test(ctx, R, fi, cfg):
-    """The cache-hit test bounds the (normalised) index on both sides by the cached chunk's start and end."""
+def _cache_hit_test(ctx, R, fi):
+    """In normal form, every result served from the cached chunk is selected by conditions that bound the (normalised) index
+    on both sides by the cached chunk's start and end, and is taken at index - start."""
+    from .sem import leaves, flat_conds, match, W, find, norm_items
+    from .sym import Sym, show
     prog = ctx.prog
-    idx_param = fi.params[1] if len(fi.params) > 1 else "index"
-    # the return that serves from the cache: returns a subscript of self._cached_chunk
-    hits = cfg.where(lambda n: n.kind == "return" and n.ast.value is not None and any(
-        isinstance(x, ast.Attribute) and x.attr == "_cached_chunk" for x in ast.walk(n.ast.value)))
+    P = ("param", fi.params[1] if len(fi.params) > 1 else "index")
+    v = norm_items(Sym(prog, fi, fi.cls).function_value())
+    if v[0] == "opaque":
+        raise AnchorMissing("tdms.TdmsChannel._read_at_index: body in normal form")
+    B = ("self", "_cached_chunk_bounds")
+    B0, B1 = ("item", B, 0), ("item", B, 1)
+    hits = []
+
+    def walk(val, conds):
+        for cs, leaf in leaves(val, conds):
+            if leaf[0] == "sub" and isinstance(leaf[1], tuple) and leaf[1] and leaf[1][0] == "phi":
+                # indexing distributes over a conditional base
+                for cs2, base in leaves(leaf[1], cs):
+                    walk(("sub", base, leaf[2]), cs2)
+            elif leaf[0] == "sub" and leaf[1] == ("self", "_cached_chunk"):
+                hits.append((cs, leaf[2]))
+    walk(v, ())
     if not hits:
         raise AnchorMissing("tdms.TdmsChannel._read_at_index: return from the cached chunk")
-    from .rules_resource import _controlling_tests
-    for h in hits:
-        tests = _controlling_tests(cfg, h)
-        lower = upper = False
-        for t in tests:
-            for cmpn in [x for x in ast.walk(t.ast) if isinstance(x, ast.Compare)]:
-                operands = [cmpn.left] + list(cmpn.comparators)
-                for i, op in enumerate(cmpn.ops):
-                    l, r = operands[i], operands[i + 1]
-                    l_is_idx = isinstance(l, ast.Name) and l.id == idx_param
-                    r_is_idx = isinstance(r, ast.Name) and r.id == idx_param
-                    if isinstance(op, (ast.LtE, ast.Lt)):
-                        if r_is_idx:
-                            lower = True     # X <= index
-                        if l_is_idx:
-                            upper = True     # index < Y
-                    if isinstance(op, (ast.GtE, ast.Gt)):
-                        if l_is_idx:
-                            lower = True     # index >= X
-                        if r_is_idx:
-                            upper = True     # Y > index
+    for conds, K in hits:
+        fc = flat_conds(conds)
         key = "tdms.TdmsChannel._read_at_index::cache hit test"
+        m = match(("binop", "-", (W("I"), B0)), K)
+        if m is None:
+            R.undecided(key, fi.where(), "position in the cached chunk `%s` not understood" % show(K)[:100])
+            continue
+        I = m["I"]
+        lower = ("cmp", "<=", B0, I) in fc or ("cmp", ">=", I, B0) in fc
+        upper = ("cmp", "<", I, B1) in fc or ("cmp", ">", B1, I) in fc
         if lower and upper:
-            R.ok(key, fi.where(h.ast), "the hit test bounds %s from below and above" % idx_param)
+            R.ok(key, fi.where(), "the hit test bounds the index from below and above by the cached bounds")
         else:
-            R.violation(key, fi.where(h.ast), "the value is served from the cached chunk under a test that does not bound `%s` %s: an index "
-                        "outside the cached chunk would be answered from it (result depends on what was read before)" % (
-                            idx_param, "from below" if upper else ("from above" if lower else "at all")))
-        # negative-index normalisation must dominate the hit test
-        norm = lambda n: n.kind == "stmt" and isinstance(n.ast, ast.Assign) and any(
-            isinstance(t, ast.Name) and t.id == idx_param for t in n.ast.targets)
-        norm_nodes = cfg.where(norm)
-        if norm_nodes:
-            # the normalising `if index < 0:` test must be passed before the hit is served
-            guard = lambda n: n.kind == "test" and isinstance(n.ast, ast.Compare) and isinstance(n.ast.left, ast.Name) \
-                and n.ast.left.id == idx_param and isinstance(n.ast.ops[0], ast.Lt) \
-                and isinstance(n.ast.comparators[0], ast.Constant) and n.ast.comparators[0].value == 0
-            ok, wit = cfg.dominated_by(h, guard)
-            R.check(ok, "tdms.TdmsChannel._read_at_index::index normalised before cache lookup", fi.where(h.ast),
-                    "negative indices are normalised before the cache is consulted",
-                    "the cache is consulted before a negative index is normalised: the same element is fetched again "
-                    "or missed depending on how it was addressed")
+            R.violation(key, fi.where(), "the value is served from the cached chunk under a test that does not bound the index %s: an index "
+                        "outside the cached chunk would be answered from it (result depends on what was read before). Conditions: %s" % (
+                            "from below" if upper else ("from above" if lower else "at all"), "; ".join(show(c) for c in fc)[:200]))
+        normalised = bool(find(I, ("cmp", "<", P, ("const", 0)))) or bool(find(I, ("cmp", ">=", P, ("const", 0))))
+        R.check(normalised or I != P, "tdms.TdmsChannel._read_at_index::index normalised before cache lookup", fi.where(),
+                "negative indices are normalised before the cache is consulted",
+                "the cache is consulted before a negative index is normalised: the same element is fetched again "
+                "or missed depending on how it was addressed")
 
 
 @rule("CE1", "offset-array de-duplication compares every element", floor=1)
